@@ -29,9 +29,13 @@ def run(ctx, model_ok):
                        "all four fields; distinct = observer rows")
     ctx.cov["samples"] = [ost]
     ctx.cov["not_shown"] = ["IEEE overflow/underflow, NaN from inf-inf, float termination of the cel/el3 loops: outside exact real arithmetic, watchdogged oracle only "
-                            "(exact-arithmetic termination with an explicit iteration bound IS proved for the scalar loops cel_iter0 and cel0, and for BHJM_circle on every input)",
-                            "termination of the vectorised celv (per entry the cel0 loop executed at least once, without the kc == 0 guard) and of the el3 iterations: not modelled "
-                            "(cel_iterv and the dispatcher cel_iter ARE modelled, tied by the kern stream and proved to terminate on batches)",
+                            "(exact-arithmetic termination with an explicit iteration bound IS proved for the scalar loops cel_iter0 and cel0, the batch loops cel_iterv and celv, and for BHJM_circle on every input)",
+                            "termination of the el3 / el3v iterations: not modelled. The vectorised celv (masked loop, per entry the cel0 loop executed at least once, no kc == 0 guard) and "
+                            "the dispatcher cel ARE modelled (Model/Celv.lean, celbatch rows of the kern stream, bit-identical) and proved: celv_terminates / celDispatch_terminates (every entry "
+                            "kc != 0: the loop ends after at most celvFuel batch passes, the largest of the entries' cel0 bounds, celvFuel_is_max), celv_loops_at_zero (one entry kc = 0 and no row "
+                            "of the batch gets a result: known finding Cylinder denormal-height; the stream never calls the real celv with kc == 0), celv_fuel_irrelevant; "
+                            "cel_iterv and the dispatcher cel_iter are modelled, tied by the kern stream and proved to terminate on batches. Not shown: non-vanishing of celv's divisors pp, g "
+                            "(prologue p <= 0) and em*(em+pp); float termination",
                             "definedness of the CylinderSegment closed form off its special sets (ported with opaque special functions; no theorem, in particular none that bhjmCylSeg / "
                             "bhjmCylSegInternal returns a value). Cuboid: the edge mask is proved to cover the zero set of all 24 logarithm factors "
                             "CylinderSegment: the dispatch is total for every observer the wrapper lets through (`wrapper_never_dispatches_unhandled`, full strength after the repair of the surface masks; hypothesis |r1| <= |r2|); the NaN rows are characterised exactly (`cylseg_nan_rows_characterised`); definedness of the individual closed forms (divisors, log / atanh arguments) off their special sets is not shown (observers a relative 1e-9 off a base plane can return NaN: reported). Cuboid: the edge mask is proved to cover the zero set of all 24 logarithm factors "
